@@ -278,7 +278,7 @@ def _run_law(task, closed_form, input_constraints, max_cells=400, outcome_key=No
         # cross-validate the engine on this cell: enumerate the real code's random outcomes concretely at a
         # model of the cell and compare the enumerated law with the closed form
         cell_clean = res["violation_count"] == viol_before
-        if res["xval"] < task.get("xval_cells", 2) and law and not canary and cell_clean and checker is None:
+        if res["xval"] < task.get("xval_cells", int(__import__("os").environ.get("SX_XVAL_CELLS", "1000"))) and law and not canary and cell_clean and checker is None:
             try:
                 if sc.check() == z3.sat:
                     mdl = core.model_to_dict(sc.model(), cvars)
